@@ -169,7 +169,7 @@ func (c *Cer) ProposeRaw(node int, round string, tasks []TaskSpec) string {
 			sts = append(sts, requests.SigningTask{MessageID: uuid.New().String(), RangeStart: t.Start, RangeEnd: t.End})
 		} else {
 			c.Tr.ExpectFile(t.File, t.Payload)
-			sts = append(sts, requests.SigningTask{MessageID: strings.ReplaceAll(t.File, " ", "-") + "_" + uuid.New().String()[:5], File: t.File, Payload: t.Payload})
+			sts = append(sts, requests.SigningTask{MessageID: strings.ReplaceAll(t.File, " ", "-") + "_" + uuid.New().String()[:5], File: t.File, Payload: t.Payload, RangeStart: t.Start, RangeEnd: t.End})
 		}
 	}
 	pid := -1
